@@ -130,3 +130,96 @@ def run_alloc(B, shapes, parallel, clause):
             if bad:
                 break
     _finish(bad, '_BlockTreeBuilder.new_empty_array_for_evaluable')
+
+
+# ---- lock discipline of generated text ---------------------------------------------------------------------------------------
+
+def text_discipline(lines, shared):
+    """Parse generated Python text; every simple statement that mentions a shared name (other than as the bare target of an
+    assignment) must be nested in `with <its lock>:`; an `if` test counts as a statement of its own; no lock is taken twice on the
+    way down.  Returns (number of simple statements, list of problems)."""
+    import ast
+    src = '\n'.join(lines)
+    tree = ast.parse(src)
+    bad, count = [], [0]
+
+    def names(node):
+        return {n.id for n in ast.walk(node) if isinstance(n, ast.Name)}
+
+    def check(what, used, held, node):
+        for v in sorted(used):
+            if v in shared and shared[v] not in held:
+                bad.append('line %d `%s`: %s mentions shared %s without holding %s' % (node.lineno, src.split('\n')[node.lineno - 1].strip(), what, v, shared[v]))
+
+    def visit(stmts, held):
+        for st in stmts:
+            if isinstance(st, ast.With):
+                locks = [ast.unparse(i.context_expr) for i in st.items]
+                for l in locks:
+                    if l in held:
+                        bad.append('line %d: lock %s taken while held' % (st.lineno, l))
+                # a `with` on something that is not a lock (e.g. a context manager call) is a statement reading its item
+                for i in st.items:
+                    if not isinstance(i.context_expr, ast.Name):
+                        check('with-item', names(i.context_expr), held, st)
+                visit(st.body, held + tuple(locks))
+            elif isinstance(st, ast.If):
+                count[0] += 1
+                check('if-test', names(st.test), held, st)
+                visit(st.body, held)
+                visit(st.orelse, held)
+            elif isinstance(st, ast.For):
+                check('for-iterable', names(st.iter), held, st)
+                visit(st.body, held)
+            else:
+                count[0] += 1
+                used = names(st)
+                if isinstance(st, ast.Assign) and len(st.targets) == 1 and isinstance(st.targets[0], ast.Name):
+                    used = names(st.value)
+                check('statement', used, held, st)
+    visit(tree.body, ())
+    return count[0], bad
+
+
+class _Parent:
+    def __init__(self, shared):
+        from nutils import _pyast
+        self._shared_arrays = {_pyast.Variable(k): _pyast.Variable(v) for k, v in shared.items()}
+        self._n = itertools.count(1)
+        self.new_var = lambda: _pyast.Variable('tmp%d' % next(self._n))
+
+
+def emit_case(method, subsets, shared={'a': 'lock_a', 'b': 'lock_b'}):
+    from nutils import evaluable, _pyast
+    block = _pyast.Block()
+    bb = evaluable._BlockBuilder(_Parent(shared), block)
+    operands = []
+    for k, sub in enumerate(subsets):
+        if tuple(sub) == ('TARGET',):
+            operands.append(_pyast.Variable('a'))
+        else:
+            operands.append(_pyast.Variable('x%d' % k).get_item(_pyast.Tuple(tuple(_pyast.Variable(n) for n in sub))))  # x0[a, b]: valid as a value and as a target
+    ret = getattr(bb, method)(*operands)
+    if method == 'if_':
+        ret.exec(_pyast.Variable('g').call())  # an empty if-body prints nothing
+    lines = list(block.lines)
+    n, bad = text_discipline(lines, shared)
+    if n < 1:
+        bad.append('no statement emitted')
+    text = '\n'.join(lines)
+    if method != 'eval':
+        for k, sub in enumerate(subsets):
+            if tuple(sub) != ('TARGET',) and 'x%d[' % k not in text:
+                bad.append('operand %d does not occur in the emitted statement' % k)
+    elif not (isinstance(ret, _pyast.Variable) and ret.name.startswith('tmp') and ('%s = x0[' % ret.name) in text):
+        bad.append('eval did not bind the value to a new variable')
+    return lines, bad
+
+
+def run_emit(method, subsets, clause):
+    print('clause:', clause)
+    lines, bad = emit_case(method, subsets)
+    print('_BlockBuilder.%s on operands over %r emits:' % (method, subsets))
+    for l in lines:
+        print('    ' + l)
+    _finish(bad, '_BlockBuilder.' + method)
